@@ -342,6 +342,56 @@ func (w *W) c15Program(k int) {
 				})
 				trace = append(trace, "deser(payload-damaged)")
 			}
+			if r.Chance(1, 4) {
+				// a blob whose framing parses but whose sections do not add up (a block missing, cut
+				// short, or declared one byte longer than it is): whatever Deserialize makes of it, it
+				// makes the same of it on the reused Serializer and destination as on fresh ones
+				var bad []byte
+				walk.Guard(func() error {
+					ser.CompressMode(compModes[r.Intn(4)])
+					good := ser.Serialize(nil, *src)
+					ser.CompressMode(mode)
+					c, err := parseContainer(good)
+					if err != nil {
+						return nil
+					}
+					sec := 1 + r.Intn(3)
+					switch r.Intn(3) {
+					case 0:
+						c.present[sec] = false
+					case 1:
+						c.plain[sec] = c.plain[sec][:len(c.plain[sec])/2]
+					default:
+						c.secSize[sec]++
+					}
+					bad = c.build()
+					return nil
+				})
+				if bad != nil && damageAllocatable(bad, bad) {
+					var o1, o2 *simdjson.ParsedJson
+					var e1, e2 error
+					p1 := walk.Guard(func() error { o1, e1 = ser.Deserialize(bad, serDst); return nil })
+					p2 := walk.Guard(func() error { o2, e2 = simdjson.NewSerializer().Deserialize(bad, nil); return nil })
+					trace = append(trace, "deser(sections do not add up)")
+					w.Eval(1)
+					if (p1 != nil) != (p2 != nil) || (e1 != nil) != (e2 != nil) {
+						w.Violation("C15/malformed-blob/outcome-depends-on-history", fmt.Sprintf("a blob whose sections do not add up: reused Serializer/destination gives (panic=%v, err=%v), fresh ones give (panic=%v, err=%v); history=%v", p1, e1, p2, e2, lastN(trace, 8)), cs)
+						return
+					}
+					if p1 == nil && e1 == nil {
+						a, ea := walk.Into(o1)
+						b, eb := walk.Into(o2)
+						if (ea != nil) != (eb != nil) || ea == nil && cmpRoots(b, a, nil, false) != "" {
+							w.Violation("C15/malformed-blob/document-depends-on-history", fmt.Sprintf("a blob whose sections do not add up is accepted and read as different documents by a reused and a fresh Serializer/destination: %v | %v | %s; history=%v", ea, eb, cmpRoots(b, a, nil, false), lastN(trace, 8)), cs)
+							return
+						}
+					}
+					if e1 != nil && serDst != nil {
+						serDst = nil // contents undefined after a failed call; start over
+					}
+					w.Count("malformed_blobs_compared_with_fresh_objects", 1)
+				}
+			}
 			if r.Chance(1, 6) && cs.C == 0 {
 				// (at most c15SerPanicBudget of these per process: a Serialize that panics half-way
 				// leaves its block compressors unclosed, and each keeps megabytes of buffers alive
